@@ -32,7 +32,7 @@ func NewCaveatSet(caveats ...Caveat) *CaveatSet {
 func DecodeCaveats(buf []byte) (*CaveatSet, error) {
 	cavs := new(CaveatSet)
 
-	if err := msgpack.Unmarshal(buf, cavs); err != nil {
+	if err := unmarshal(buf, cavs); err != nil {
 		return nil, err
 	}
 
